@@ -748,3 +748,97 @@ func (c *Ctx) allElemsByContainsFunc(fn *ssa.Function) bool {
 	}
 	return nTrue > 0
 }
+
+// VAL-KINDS (C03/C05/C06/C10): every kind of leaf payload the token→literal function produces is a kind the
+// leaf validators accept. Parse validates what it built; a payload kind the validator does not know makes
+// every query with such a term unparseable (a float, say) although nothing is wrong with it.
+func ruleVALKINDS(c *Ctx, r *Report) {
+	const rule = "VAL-KINDS"
+	r.doc(rule, "the Go kinds of leaf payloads the token→literal function hands to the leaf constructors (string, int, float64 today) are all among the dynamic types under which the validators registered for Literal, Wild and Regexp accept a payload (read off the paths of the validator and the boolean helpers it calls)")
+	pr := c.parserRoles()
+	if pr.Err != "" || pr.TokToLit == nil {
+		r.bad(rule, "anchor", "-", "token→literal function not found")
+		return
+	}
+	// kinds produced, per leaf operator
+	produced := map[string]map[string]string{}
+	for fn := range c.reachFrom([]*ssa.Function{pr.TokToLit}) {
+		if fnPkgPath(fn) != pkgRoot {
+			continue
+		}
+		for _, b := range fn.Blocks {
+			for _, in := range b.Instrs {
+				call, ok := in.(*ssa.Call)
+				if !ok || call.Call.StaticCallee() == nil || fnPkgPath(call.Call.StaticCallee()) != pkgExpr || len(call.Call.Args) == 0 {
+					continue
+				}
+				ops := c.ctorOperator(call.Call.StaticCallee())
+				if len(ops) != 1 {
+					continue
+				}
+				if mi, ok := call.Call.Args[0].(*ssa.MakeInterface); ok {
+					if produced[ops[0]] == nil {
+						produced[ops[0]] = map[string]string{}
+					}
+					produced[ops[0]][typeStr(mi.X.Type())] = c.instrPos(in)
+				}
+			}
+		}
+	}
+	vt := c.readTable(pkgExpr, "validators").byKey()
+	n := 0
+	var opsSorted []string
+	for op := range produced {
+		opsSorted = append(opsSorted, op)
+	}
+	sort.Strings(opsSorted)
+	for _, op := range opsSorted {
+		te := vt[op]
+		if te == nil || te.Fn == nil {
+			continue // VAL-TOTAL reports a missing validator
+		}
+		// accepted dynamic types of $0.Left on the validator's accepting paths (helpers read in place)
+		paths, _ := c.enumPathsOpt(te.Fn, 5000, c.inlBool())
+		accepted := map[string]bool{}
+		unconstrained := false
+		for _, p := range paths {
+			if p.Ret == nil || len(p.Ret.Results) != 1 || !isNilConst(c.resolve(p.Ret.Results[0], p.Env)) {
+				continue
+			}
+			any := false
+			nilNode := false
+			for _, a := range p.Atoms {
+				if a.Kind == "nil" && a.Pos && a.Subj == "$0" {
+					nilNode = true // the validator's answer for a nil node says nothing about payloads
+				}
+			}
+			if nilNode {
+				continue
+			}
+			for _, a := range p.Atoms {
+				if a.Kind == "type" && a.Pos && strings.HasSuffix(a.Subj, ".Left") {
+					accepted[a.Val] = true
+					any = true
+				}
+			}
+			if !any {
+				unconstrained = true
+			}
+		}
+		var kinds []string
+		for k := range produced[op] {
+			kinds = append(kinds, k)
+		}
+		sort.Strings(kinds)
+		for _, k := range kinds {
+			n++
+			key := op + "|payload|" + k
+			if unconstrained || accepted[k] {
+				r.ok(rule, key, produced[op][k], "accepted by "+fnName(te.Fn))
+			} else {
+				r.bad(rule, key, produced[op][k], fmt.Sprintf("the token→literal function builds %s leaves with a %s payload, but %s accepts only payloads of type %v: every query containing such a term fails validation and Parse rejects it", op, k, fnName(te.Fn), setKeys(accepted)))
+			}
+		}
+	}
+	r.floor(rule, "leaf payload kinds produced by the parser", n, 3)
+}
